@@ -155,6 +155,8 @@ class Database:
         elif isinstance(obj, TableGroup):
             return self.delete_table_group(obj)
         elif isinstance(obj, Project):
+            if obj is not self.project:
+                raise DatabaseValidationError(f'{obj} is not in the database.')
             return self.delete_project()
         else:
             raise DatabaseValidationError(f'Unsupported type {type(obj)}.')
